@@ -287,83 +287,99 @@ def nextSvc (p : Program) (f : Nat) (svc : Service) : Option (Nat × Service) :=
 
 def svcCount (p : Program) : Nat := (p.files.map (·.services.length)).sum
 
-/-- traceExtendMethod.  The loops over fathers × methods are collapsed to `any`: repeating
-`currentMap[svc] = …; markFunction(function)` adds nothing to the set. -/
+def hitFathers (cfg : Cfg) (ms : List Bytes) (fathers : List Bytes) (fn : Function) : Bool :=
+  fathers.any (fun fa => hitLoose cfg ms (dot fa fn.name))
+
+/-- `currentMap[svc] = struct{}{}; t.markFunction(function, ast, filename)` -/
+def markSvcFn (p : Program) (f : Nat) (svc : Service) (st : St) (fn : Function) : St :=
+  { st with marks := markFunction p f svc.name (Node.svc f svc.name :: st.marks) fn }
+
+/-- body of the function loop of traceExtendMethod.  The loops over fathers × methods are collapsed
+to `any`: repeating `currentMap[svc] = …; markFunction(function)` adds nothing to the set. -/
+def traceStep (p : Program) (cfg : Cfg) (ms : List Bytes) (fathers : List Bytes) (f : Nat) (svc : Service)
+    (st : St) (fn : Function) : St :=
+  if hitFathers cfg ms fathers fn then markSvcFn p f svc st fn else st
+
+/-- the end of traceExtendMethod: `if ret { currentMap[svc] = …; if svc.Reference != nil { markInclude } }` -/
+def traceFinish (f : Nat) (svc : Service) (r : St × Bool) : St × Bool :=
+  if r.2 then
+    ({ r.1 with marks :=
+        match svc.ref with
+        | some (_, i) => insInc f i (Node.svc f svc.name :: r.1.marks)
+        | none => Node.svc f svc.name :: r.1.marks }, true)
+  else (r.1, false)
+
+/-- traceExtendMethod -/
 def trace (p : Program) (cfg : Cfg) (ms : List Bytes) : Nat → List Bytes → Nat → Service → St → St × Bool
   | 0, _, _, _, st => ({ st with crash := true }, false)
   | j+1, fathers, f, svc, st =>
-    let hit := fun (fn : Function) => fathers.any (fun fa => hitLoose cfg ms (dot fa fn.name))
-    let st1 := svc.fns.foldl (fun (st : St) fn =>
-      if hit fn then { st with marks := markFunction p f svc.name (Node.svc f svc.name :: st.marks) fn } else st) st
-    let ret1 := svc.fns.any hit
-    let r2 : St × Bool :=
-      if svc.ext ≠ [] then
-        match nextSvc p f svc with
-        | none => ({ st1 with crash := true }, ret1)          -- nextSvc == nil is dereferenced
-        | some (g, b) =>
-          let r := trace p cfg ms j (fathers ++ [b.name]) g b st1
-          (if r.2 then r.1 else { r.1 with ext := (f, svc.name) :: r.1.ext }, r.2 || ret1)
-      else (st1, ret1)
-    if r2.2 then
-      let M := Node.svc f svc.name :: r2.1.marks
-      let M := match svc.ref with
-        | some (_, i) => insInc f i M
-        | none => M
-      ({ r2.1 with marks := M }, true)
-    else (r2.1, false)
+    let st1 := svc.fns.foldl (traceStep p cfg ms fathers f svc) st
+    let ret1 := svc.fns.any (hitFathers cfg ms fathers)
+    if svc.ext ≠ [] then
+      match nextSvc p f svc with
+      | none => traceFinish f svc ({ st1 with crash := true }, ret1)          -- nextSvc == nil is dereferenced
+      | some (g, b) =>
+        let r := trace p cfg ms j (fathers ++ [b.name]) g b st1
+        traceFinish f svc (if r.2 then r.1 else { r.1 with ext := (f, svc.name) :: r.1.ext }, r.2 || ret1)
+    else traceFinish f svc (st1, ret1)
+
+/-- body of the function loop of markService -/
+def svcStep (p : Program) (cfg : Cfg) (ms : List Bytes) (f : Nat) (svc : Service) (st : St) (fn : Function) : St :=
+  if ms.isEmpty then { st with marks := markFunction p f svc.name st.marks fn }
+  else if hitStrict cfg ms (dot svc.name fn.name) then markSvcFn p f svc st fn
+  else st
 
 def markService (p : Program) (cfg : Cfg) (ms : List Bytes) : Nat → Nat → Service → St → St
   | 0, _, _, st => { st with crash := true }
   | j+1, f, svc, st =>
     if Node.svc f svc.name ∈ st.marks then st else
-    let st := if ms.isEmpty then { st with marks := Node.svc f svc.name :: st.marks } else st
-    let st := svc.fns.foldl (fun (st : St) fn =>
-      if ms.isEmpty then { st with marks := markFunction p f svc.name st.marks fn }
-      else if hitStrict cfg ms (dot svc.name fn.name) then
-        { st with marks := markFunction p f svc.name (Node.svc f svc.name :: st.marks) fn }
-      else st) st
-    let st := if !ms.isEmpty && (svc.ext ≠ [] || svc.ref.isSome) then
-        (trace p cfg ms (svcCount p + 1) [svc.name] f svc st).1 else st
-    if svc.ext ≠ [] ∧ Node.svc f svc.name ∈ st.marks then
+    let st0 := if ms.isEmpty then { st with marks := Node.svc f svc.name :: st.marks } else st
+    let st1 := svc.fns.foldl (svcStep p cfg ms f svc) st0
+    let st2 := if !ms.isEmpty && (svc.ext ≠ [] || svc.ref.isSome) then
+        (trace p cfg ms (svcCount p + 1) [svc.name] f svc st1).1 else st1
+    if svc.ext ≠ [] ∧ Node.svc f svc.name ∈ st2.marks then
       match svc.ref with
-      | none => st
+      | none => st2
       | some (rn, i) =>
         match p.incTarget f i with
-        | none => { st with crash := true }
+        | none => { st2 with crash := true }
         | some g =>
-          let st := { st with marks := insInc f i st.marks }
           match findSvc p g rn with
-          | none => st
-          | some b => markService p cfg ms j g b st
-    else st
+          | none => { st2 with marks := insInc f i st2.marks }
+          | some b => markService p cfg ms j g b { st2 with marks := insInc f i st2.marks }
+    else st2
 
 /-! ### always-kept parts -/
 
 def checkPreserve (cfg : Cfg) (s : StructLike) : Bool :=
   !cfg.force && (cfg.preserved.contains s.name || (!cfg.noComment && s.pcomment))
 
+def cacheGet : List (Nat × Bool) → Nat → Option Bool
+  | [], _ => none
+  | (g, r) :: c, f => if g = f then some r else cacheGet c f
+
+/-- body of the struct-like loop of markKeptPart -/
+def keptStep (p : Program) (cfg : Cfg) (f : Nat) (a : Marks × Bool) (ks : SLKind × StructLike) : Marks × Bool :=
+  if !a.1.contains (Node.sl f ks.1 ks.2.name) && checkPreserve cfg ks.2
+  then (visit p (fuelN p) a.1 (Node.sl f ks.1 ks.2.name), true) else a
+
 def markKeptPart (p : Program) (cfg : Cfg) (f : Nat) (st : St) : St × Bool :=
-  match st.cache.lookup f with
+  match cacheGet st.cache f with
   | some r => (st, r)
   | none =>
-    let file := p.file f
-    let M := markTypes p f st.marks (file.consts.map (·.ty))
-    let M := markTypes p f M (file.typedefs.map (·.ty))
-    let ret := !file.consts.isEmpty || !file.typedefs.isEmpty
-    let r : Marks × Bool :=
-      if cfg.force then (M, ret) else
-        file.sls.foldl (fun (a : Marks × Bool) ks =>
-          if !a.1.contains (Node.sl f ks.1 ks.2.name) && checkPreserve cfg ks.2
-          then (visit p (fuelN p) a.1 (Node.sl f ks.1 ks.2.name), true) else a) (M, ret)
+    let M := markTypes p f (markTypes p f st.marks ((p.file f).consts.map (·.ty))) ((p.file f).typedefs.map (·.ty))
+    let ret := !(p.file f).consts.isEmpty || !(p.file f).typedefs.isEmpty
+    let r : Marks × Bool := if cfg.force then (M, ret) else (p.file f).sls.foldl (keptStep p cfg f) (M, ret)
     ({ st with marks := r.1, cache := (f, r.2) :: st.cache }, r.2)
+
+/-- body of the include loop of preProcess; `rec` is preProcess on the included file -/
+def preStep (rec : Nat → St → St × Bool) (f : Nat) (a : St × Bool) (ii : Include × Nat) : St × Bool :=
+  let r := rec ii.1.target a.1
+  if r.2 then ({ r.1 with marks := Node.inc f ii.2 :: r.1.marks }, true) else (r.1, a.2)
 
 def preProcess (p : Program) (cfg : Cfg) : Nat → Nat → St → St × Bool
   | 0, _, st => ({ st with crash := true }, false)
-  | j+1, f, st =>
-    (p.file f).includes.zipIdx.foldl (fun (a : St × Bool) ii =>
-      let r := preProcess p cfg j ii.1.target a.1
-      if r.2 then ({ r.1 with marks := Node.inc f ii.2 :: r.1.marks }, true) else (r.1, a.2))
-      (markKeptPart p cfg f st)
+  | j+1, f, st => (p.file f).includes.zipIdx.foldl (preStep (preProcess p cfg j) f) (markKeptPart p cfg f st)
 
 def St.init : St := ⟨[], [], [], false⟩
 
@@ -451,5 +467,57 @@ def trimProg (p : Program) (cfg : Cfg) : Program :=
 
 def trim (p : Program) (cfg : Cfg) : Outcome :=
   if (markAST p cfg).crash then .crash else .ok (trimProg p cfg)
+
+
+/-! ## Specification: reachability as a least set, independent of the DFS -/
+
+/-- the nodes a type written in file `f` names: through its key and value types, and by its own
+header unless it is a plain base type -/
+inductive TyRef (p : Program) (f : Nat) : Ty → Node → Prop
+  | self {ty : Ty} {n : Node} : ty.hdr.plain = false → n ∈ selfTargets p f ty.hdr → TyRef p f ty n
+  | val1 {h : TyHdr} {v : Ty} {n : Node} : h.plain = false → TyRef p f v n → TyRef p f (.unary h v) n
+  | key {h : TyHdr} {k v : Ty} {n : Node} : h.plain = false → TyRef p f k n → TyRef p f (.binary h k v) n
+  | val2 {h : TyHdr} {k v : Ty} {n : Node} : h.plain = false → TyRef p f v n → TyRef p f (.binary h k v) n
+
+/-- a struct-like needs what its field types name; a typedef needs what its target names -/
+inductive Edge (p : Program) : Node → Node → Prop
+  | field {f : Nat} {k : SLKind} {n : Bytes} {s : StructLike} {fd : Field} {x : Node} :
+      findSL p f k n = some s → fd ∈ s.fields → TyRef p f fd.ty x → Edge p (.sl f k n) x
+  | typedef {f : Nat} {a : Bytes} {t : Typedef} {x : Node} :
+      findTd p f a = some t → TyRef p f t.ty x → Edge p (.td f a) x
+
+/-- files reachable from the root through the (original) include lists -/
+inductive InclReach (p : Program) : Nat → Prop
+  | root : InclReach p 0
+  | step {f i g : Nat} : InclReach p f → p.incTarget f i = some g → InclReach p g
+
+/-- Roots: what the kept functions (those with a function mark in `M`), every constant, every
+typedef and (unless preserve=false) every preserved struct-like of every included file name. -/
+inductive Root (p : Program) (cfg : Cfg) (M : Marks) : Node → Prop
+  | fn {f : Nat} {svc : Service} {fn : Function} {ty : Ty} {x : Node} :
+      svc ∈ (p.file f).services → fn ∈ svc.fns → Node.fn f svc.name fn.name ∈ M → ty ∈ fn.types →
+      TyRef p f ty x → Root p cfg M x
+  | const {f : Nat} {c : Const} {x : Node} :
+      InclReach p f → c ∈ (p.file f).consts → TyRef p f c.ty x → Root p cfg M x
+  | typedef {f : Nat} {t : Typedef} {x : Node} :
+      InclReach p f → t ∈ (p.file f).typedefs → TyRef p f t.ty x → Root p cfg M x
+  | preserved {f : Nat} {k : SLKind} {s : StructLike} :
+      InclReach p f → s ∈ (p.file f).sl k → checkPreserve cfg s = true → Root p cfg M (.sl f k s.name)
+
+inductive Reach (p : Program) (cfg : Cfg) (M : Marks) : Node → Prop
+  | root {n : Node} : Root p cfg M n → Reach p cfg M n
+  | step {m n : Node} : Reach p cfg M m → Edge p m n → Reach p cfg M n
+
+/-- struct-likes, enums and typedefs: the nodes whose marks mean "needed by a type" -/
+def Node.isDecl : Node → Bool
+  | .sl _ _ _ => true
+  | .enum _ _ => true
+  | .td _ _ => true
+  | _ => false
+
+/-- names are unique among the services of a file and among the functions of a service
+(CheckGlobals, CheckFunctions) -/
+def UniqueSvcFn (p : Program) : Prop :=
+  ∀ f, ((p.file f).services.map (·.name)).Nodup ∧ ∀ svc ∈ (p.file f).services, (svc.fns.map (·.name)).Nodup
 
 end Trim
